@@ -295,6 +295,9 @@ func EnumCells(check, tier string) ([]Cell, []byzConfig) {
 							for _, k := range c05Kinds {
 								add(-1, k)
 							}
+							if strings.HasSuffix(f.Name, "_x") {
+								add(-1, "pt2-double") // a point carried in two fields replaced by another valid point
+							}
 							continue
 						}
 						n := listLen(cfg.P, row.Type, f.Name)
@@ -474,6 +477,10 @@ func shiftCells(check string, cells []Cell) []Cell {
 		// the index arithmetic behind the hash check; one such cell per message type and direction
 		// C06: a first-round message altered for one recipient who starts last and is driven on after the
 		// error it reports (the catch-up path of Start, then the rounds after an abort)
+		// C05: a public key carried in two fields replaced by another valid point in a resharing announcement
+		if check == "C05" && c.Spec.Kind == "pt2-double" && strings.Contains(c.Spec.Type, "resharing") {
+			out = append(out, c)
+		}
 		if check == "C06" && c.Spec.Rcpt >= 0 && c.Spec.Kind == "flip-low" && strings.HasSuffix(c.Spec.Type, "SignRound1Message1") {
 			out = append(out, c)
 		}
@@ -706,7 +713,27 @@ func driveByz(rc *RunCtx) {
 		}
 		return nw
 	}
+	// C06, one-recipient cells: a second party of B's committee deviates in the same way towards the same
+	// recipient, so that the victim meets more than one bad message of a type in one round (error paths that
+	// collect one report per failing peer)
+	var B2 *Node
+	if oracle == "C06" && spec.Rcpt >= 0 && !strings.HasPrefix(spec.Kind, "cm:") && !strings.HasPrefix(spec.Kind, "shift:") {
+		for _, n := range w.Nodes {
+			if n != B && n.Idx != spec.Rcpt && n.Committee == B.Committee {
+				B2 = n
+				B2.Byz = true
+				break
+			}
+		}
+	}
 	w.Intercept = func(from *Node, em *Emission) ([]byte, bool) {
+		if B2 != nil && from == B2 && em.Type == spec.Type && len(em.To) == 1 && em.To[0] == spec.Rcpt {
+			if nw, changed, err := ApplyTamper(em.Wire, spec, ctx); err == nil && changed {
+				w.Faults["tamper-by-second-party:"+spec.Kind]++
+				w.Logf("FAULT tamper %s on %s from %s (second deviating party) to %v", spec.Kind, spec.Field, B2.Name, em.To)
+				return nw, true
+			}
+		}
 		if from != B {
 			if m, err := decodeAny(em.Wire); err == nil {
 				others[em.Type] = m
